@@ -6,8 +6,15 @@ normaliser can return and every branch files exactly one object of the matching 
 keys written = keys read, BaseInteractions arguments in field order, normaliser steps update the string they test,
 DSSR: exact membership guard, pair filter, consecutive stack members, name matching.
 
-Fact-level rules first (checks/c19e.py: the import evaluated on one listing per class of line, the matchers on one id per
-class, in the abstract world of sa/world.py); the pinned forms in this file are only the fallback when that is not possible.
+Fact-level rules first (checks/c19e.py: the import evaluated on one listing per class of line and of label, the matchers on one
+id per class, in the abstract world of sa/world.py and the process model of sa/procstate.py; here: normaliser-eval on every label
+class, dssr-eval on documents whose expected import is computed from the statement's words, import-history for both importers);
+the pinned forms in this file are only the fallback when that is not possible.
+
+Round 4: label-total (every class of label files exactly one interaction - an exception of a label path must not end in the handler
+for malformed lines), import-history (two imports in one process give what each gives alone; a result already returned is not
+rewritten), may-raise sites are named with construct / reason / enclosing handlers and know Enum(value) -> ValueError and lookups
+dominated by a membership test; stackings are recorded exactly for members adjacent in a stack's own list.
 """
 from __future__ import annotations
 
